@@ -623,6 +623,12 @@ class TaskScenario(ScenarioData):
                     # For effort tasks with allocations, check resource availability
                     # (respects resource timezone and working hours)
                     lowerLimit = self.project.dateToIdx(self.project["start"])
+                    if self.currentSlotIdx < lowerLimit or self.currentSlotIdx > self.project.dateToIdx(
+                        self.project["end"]
+                    ):
+                        # Deadline outside the project window: does not fit (reported below)
+                        self.isRunAway = True
+                        return False
                     if effort > 0 and allocations:
                         while self.currentSlotIdx > lowerLimit and not self._isResourceAvailable(self.currentSlotIdx):
                             self.currentSlotIdx -= 1
@@ -669,6 +675,13 @@ class TaskScenario(ScenarioData):
         delta = 1 if forward else -1
         lowerLimit = self.project.dateToIdx(self.project["start"])
         upperLimit = self.project.dateToIdx(self.project["end"])
+
+        # A pinned date or a dependency bound outside the project window cannot be scheduled:
+        # report it like any other task that does not fit instead of indexing the
+        # scoreboards out of range
+        if self.currentSlotIdx is None or self.currentSlotIdx < lowerLimit or self.currentSlotIdx > upperLimit:
+            self.isRunAway = True
+            return False
 
         previous_effort = self.doneEffort
         while self.scheduleSlot():
